@@ -872,6 +872,13 @@ def check_caches(run, modules, rule, functions=None, prog=None, zero_is_a_value=
                          "%s reads '%s' after a try statement whose body is the only place that assigns it and whose handler (line %d) falls "
                          "through without assigning it: when the handled exception occurs the read raises UnboundLocalError instead of the "
                          "documented fallback" % (name, nm_, t_.handlers[0].lineno))
+            from .rules._purity import shape_index_beyond_validated_rank
+            for n_, nm_, r_ in shape_index_beyond_validated_rank(fn):
+                nstores += 1
+                run.subject(rule)
+                run.fail(rule, '%s|%s|shape-index:%s' % (mi.name, name, norm(n_)[:30]), mi.relpath, n_.lineno,
+                         "%s reads %s after validating that '%s' has exactly %d axis/axes: the index is out of range for every input the "
+                         "validation lets through (IndexError instead of the consistency check)" % (name, norm(n_), nm_, r_))
             from .rules._purity import guards_contradicting_their_message
             for g_, why_ in guards_contradicting_their_message(fn):
                 nstores += 1
